@@ -27,6 +27,7 @@ EXPLANATION = (
     "the handler documentation states. (data-flow) the data set encoded into a response is the object the "
     "handler supplied, wrapped once into the response's own data-set parameter. Not decided: that the data "
     "set reaches the requestor unchanged (C25/C18 hold the structural part)."
+    " Fourth session: (encode-total) dsutils.encode returns None for whatever the pydicom writer raises; (reply-fresh) C17's fresh-message rule."
 )
 
 CAUSE_PATTERNS = [
